@@ -87,6 +87,11 @@ def main():
     t0 = time.time()
     units = spec["units"]
     results = {}
+    if (spec.get("extra") or spec.get("fallback")) and not os.environ.get("VERIF_NO_E2E"):
+        # the release build the bounded parts run against is made while Verus works
+        import threading
+        from contracts import e2e as _e2e
+        threading.Thread(target=_e2e.build, daemon=True).start()
     with cf.ThreadPoolExecutor(max_workers=max(1, min(8, len(units)))) as ex:
         futs = {ex.submit(engine.run_unit, u): u for u in units}
         for fu in cf.as_completed(futs):
@@ -133,12 +138,14 @@ def main():
             if er.get("undecided"):
                 undecided.append("%s: %s" % (name, er["undecided"]))
 
-    # bounded end-to-end families (contracts/e2e.py): a stand-in when a change has moved a function outside the verifier's reach (UNDECIDED) and
-    # a search for a concrete failing input when an obligation failed (Verus gives no counterexample); always run in the thorough tier
-    if spec.get("fallback") and (tier == "thorough" or undecided or violations) and not os.environ.get("VERIF_NO_E2E"):
+    # bounded end-to-end families (contracts/e2e*.py): a stand-in when a change has moved a function outside the verifier's reach (UNDECIDED), a
+    # search for a concrete failing input when an obligation failed (Verus gives no counterexample), and otherwise an additional run (labelled bounded)
+    if spec.get("fallback") and not os.environ.get("VERIF_NO_E2E"):
         for name, fn in spec["fallback"]:
             er = fn(tier, seed)
-            er["why_run"] = "thorough tier" if tier == "thorough" else ("the Verus side is undecided" if undecided else "search for a failing input for the failed obligation(s)")
+            er["role"] = ("bounded stand-in: the Verus side is undecided" if undecided else
+                          ("search for a concrete failing input for the failed obligation(s)" if violations else
+                           "additional bounded run through the release binary; the proof above decides the property, this part is never counted as proved"))
             extra[name] = er
             for v in er.get("violations", []):
                 extra_viol.append(v)
@@ -294,9 +301,13 @@ def main():
         if level in ("exploration",) and "evaluations" in er:
             cov["evaluations"] = cov.get("evaluations", 0) + er["evaluations"]
             cov["distinct_nontrivial"] = cov.get("distinct_nontrivial", 0) + er.get("distinct_nontrivial", 0)
-            cov["rule"] = er.get("rule", "")
-            cov["samples"] = er.get("samples", cov["samples"])
-            cov["exhaustive"] = er.get("exhaustive", False)
+            if "rule" not in cov:
+                cov["rule"] = er.get("rule", "")
+                cov["exhaustive"] = er.get("exhaustive", False)
+            else:
+                cov["rule"] += " || additionally (%s): %s" % (name, er.get("rule", ""))
+            if er.get("samples"):
+                cov["samples"] = er["samples"]
     ev = {
         "property_id": pid,
         "tier": tier,
@@ -325,7 +336,7 @@ def main():
         for uu in undecided:
             print("UNDECIDED property=%s %s" % (pid, uu))
         for name, er in extra.items():
-            if er.get("why_run") and "evaluations" in er:
+            if er.get("role") and "evaluations" in er:
                 print("bounded run %s: no violation of %s in %d scenarios (does not decide the property)" % (name, pid, er["evaluations"]))
         sys.exit(2)
     print("OK property=%s obligations=%d discharged=%d units=%s wall=%.1fs" % (pid, obligations, discharged, ",".join(units), time.time() - t0))
